@@ -22,7 +22,9 @@ Definition parse_q (s : str) : Q :=
   | [n; d] => Qmake (z_of_str n) (Z.to_pos (z_of_str d))
   | _ => Qmake (z_of_str s) 1
   end.
-Definition dummy_col : column := mkColumn [] 0 0 0 0 0.
+Definition dummy_col : column := mkColumn [] 0 0 0 0 0 [].
+Definition parse_pt (s : str) : Q * Q :=
+  match split_c "_" s with [x; y] => (parse_q x, parse_q y) | _ => (0, 0) end.
 Definition parse_layer (s : str) : layer :=
   match split_c "," s with
   | [n; b; c; t] => mkLayer (unhex n) (parse_q b) (parse_q c) (parse_q t)
@@ -30,7 +32,11 @@ Definition parse_layer (s : str) : layer :=
   end.
 Definition parse_column (s : str) : column :=
   match split_c "," s with
-  | [n; sf; a; x; y; k] => mkColumn (unhex n) (parse_q sf) (parse_q a) (parse_q x) (parse_q y) (nat_of_str k)
+  | [n; sf; a; x; y; k; poly] =>
+      (* the model computes the column area itself, from the node positions; the area the
+         implementation holds ([a]) is not used *)
+      let pl := map parse_pt (items "|" poly) in
+      mkColumn (unhex n) (parse_q sf) (polygon_area pl) (parse_q x) (parse_q y) (nat_of_str k) pl
   | _ => dummy_col
   end.
 Definition parse_hconn (cols : list column) (s : str) : hconn :=
@@ -101,7 +107,10 @@ Definition run_case (line : str) : str :=
       (show_list hex (block_name_list g) ++ tab ::
        show_list (fun p => hex (fst p) ++ colon ++ hex (snd p)) (block_connection_name_list g) ++ tab ::
        show_list show_block rb ++ tab ::
-       show_list show_conn (conns_of g bm rb))%list
+       show_list show_conn (conns_of g bm rb) ++ tab ::
+       show_list (fun c => match polygon_centroid (cpoly c) with
+                           | Some p => show_q (fst p) ++ colon ++ show_q (snd p)
+                           | None => s2l "None" end) (Ok cols))%list
   | _ => s2l "BADCASE"
   end.
 
